@@ -987,6 +987,15 @@ func (x *c05Run) shortAtEOF() (dir string, got, want int64) {
 	}{{"l2r", x.srv, x.cli}, {"r2l", x.cli, x.srv}} {
 		e, cw := d.p.eofAt.Load(), d.q.cwAt.Load()
 		if e != 0 && cw != 0 && e >= cw {
+			// The reader itself shut down its write side >= 5 s before this EOF: the relay's bounded
+			// grace period for the opposite direction (10 s) may have run out while the sender was
+			// still writing (a slow sender on a loaded machine); like judgeCut, not judged.
+			if own := d.p.cwAt.Load(); own != 0 && e-own >= int64(5*time.Second) {
+				if g, w := d.p.recvd.Load(), d.q.sent.Load(); g < w {
+					x.m.Count("grace_short_after_5s_unjudged", 1)
+				}
+				continue
+			}
 			if g, w := d.p.recvd.Load(), d.q.sent.Load(); g < w {
 				return d.dir, g, w
 			}
@@ -1479,6 +1488,120 @@ func (x *c05Run) teardown(_ *net.TCPConn) {
 
 // ---------------------------------------------------------------------------
 
+// c05AbortedRelay relays one plain TCP pair (the splice-eligible composition) whose receiving side
+// stops reading, so that the relay's buffers and the kernel pipe fill up, and then tears the
+// connection down abortively (RST from the blocked receiver, RST from the sender, or cancellation).
+// Nothing is judged on this connection itself: it only has to die with bytes in flight.
+func c05AbortedRelay(m *vk.Monitor, r *rand.Rand, id int) {
+	ln, err := c05ListenLoopback()
+	if err != nil {
+		return
+	}
+	defer func() { _ = ln.Close() }()
+	dial := func() (a, b *net.TCPConn) {
+		c, err := net.DialTCP("tcp", nil, ln.Addr().(*net.TCPAddr))
+		if err != nil {
+			return nil, nil
+		}
+		s, err := ln.AcceptTCP()
+		if err != nil {
+			_ = c.Close()
+			return nil, nil
+		}
+		return c, s
+	}
+	cli, lConn := dial() // client <-> dae's accepted side
+	rConn, srv := dial() // dae's dialled side <-> upstream
+	if cli == nil || rConn == nil {
+		for _, c := range []*net.TCPConn{cli, lConn, rConn, srv} {
+			if c != nil {
+				_ = c.Close()
+			}
+		}
+		return
+	}
+	defer func() {
+		for _, c := range []*net.TCPConn{cli, lConn, rConn, srv} {
+			_ = c.Close()
+		}
+	}()
+	sender, blocked := cli, srv // bulk upload against an upstream that does not read
+	if r.IntN(3) == 0 {
+		sender, blocked = srv, cli // bulk download against a client that does not read
+	}
+	_ = blocked.SetReadBuffer(16 << 10)
+	ctx, cancel := context.WithCancel(context.Background())
+	defer cancel()
+	var paths c05PathSet
+	var relayed atomic.Int64
+	rec := func(n int64) { relayed.Add(n); paths.record(n) }
+	done := make(chan struct{})
+	go func() {
+		defer close(done)
+		defer func() { _ = recover() }()
+		_ = RelayTCPContextWithRecords(ctx, lConn, rConn, rec, rec)
+	}()
+	var sent atomic.Int64
+	wdone := make(chan struct{})
+	go func() {
+		defer close(wdone)
+		buf := bytes.Repeat([]byte{0xEE, 0xAB}, 32<<10) // matches no judged stream
+		for sent.Load() < 64<<20 {
+			_ = sender.SetWriteDeadline(time.Now().Add(2 * time.Second))
+			n, err := sender.Write(buf)
+			sent.Add(int64(n))
+			if err != nil {
+				return
+			}
+		}
+	}()
+	// wait until the relay has stalled against the blocked receiver
+	last, still := int64(-1), 0
+	for i := 0; i < 400 && still < 5; i++ {
+		time.Sleep(10 * time.Millisecond)
+		if v := relayed.Load(); v == last && v > 0 {
+			still++
+		} else {
+			last, still = v, 0
+		}
+	}
+	how := r.IntN(3)
+	switch how {
+	case 0:
+		_ = blocked.SetLinger(0)
+		_ = blocked.Close()
+	case 1:
+		_ = sender.SetLinger(0)
+		_ = sender.Close()
+	default:
+		cancel()
+	}
+	select {
+	case <-done:
+	case <-time.After(1500 * time.Millisecond):
+		// e.g. the sender is gone but the relay is still blocked writing to the receiver that does
+		// not read: take the sockets away (no verdict is attached to how long this relay lingers)
+		m.Count("torn_down_relay_needed_all_sockets_closed", 1)
+		for _, c := range []*net.TCPConn{cli, srv, lConn, rConn} {
+			_ = c.SetLinger(0)
+			_ = c.Close()
+		}
+		select {
+		case <-done:
+		case <-time.After(30 * time.Second):
+			m.Inconclusive("torn-down relay %d did not return 30 s after all four sockets were closed", id)
+		}
+	}
+	_ = sender.Close()
+	<-wdone
+	m.Count("torn_down_relays", 1)
+	if still >= 5 && sent.Load() > relayed.Load() {
+		m.Count("torn_down_relays_with_bytes_in_flight", 1)
+	}
+	m.Count("torn_down_relay_path_"+paths.String(), 1)
+	m.Count(fmt.Sprintf("torn_down_relay_how_%d", how), 1)
+}
+
 func TestVerifC05(t *testing.T) {
 	m := vk.NewMonitor("C05", "", "exploration",
 		"seeded connection cases on real loopback TCP pairs: (handleConn stack plain|sniff|dns53) x first bytes (TLS hello, HTTP head, garbage, TLS/HTTP look-alikes, none, port-53 non-DNS frames, DNS response) x "+
@@ -1537,6 +1660,28 @@ func TestVerifC05(t *testing.T) {
 	})
 	sem := make(chan struct{}, par)
 	var wg sync.WaitGroup
+	// Torn-down relays run next to the judged cases: whatever a relay that died with bytes in flight
+	// leaves behind in process-wide state (pooled splice pipes, pooled buffers) must not leak into
+	// the streams of the other connections, which keep being compared byte for byte.
+	abortStop := make(chan struct{})
+	abortDone := make(chan struct{})
+	go func() {
+		defer close(abortDone)
+		ar := vk.NewRand(0xC05AB)
+		for i, min := 0, vk.Scale(12, 120); ; i++ {
+			select {
+			case <-abortStop:
+				if i >= min {
+					return
+				}
+			default:
+			}
+			if i >= vk.Scale(60, 1500) {
+				return
+			}
+			c05AbortedRelay(m, ar, i)
+		}
+	}()
 	for _, i := range order {
 		cs := cases[i]
 		sem <- struct{}{}
@@ -1565,6 +1710,37 @@ func TestVerifC05(t *testing.T) {
 		}()
 	}
 	wg.Wait()
+	close(abortStop)
+	<-abortDone
+	// connections relayed after the last torn-down relay: its leftovers, if any, are still pooled
+	{
+		tail := int64(64) << 20
+		for i := 0; i < 8; i++ {
+			cs := c05GenCase(r, n+1+i, &tail)
+			cs.Stack, cs.RConn, cs.Pre, cs.Arrival, cs.SrvStart, cs.Close = "plain", "tcp", "none", "after", "immediate", "client-first"
+			cs.OldConn, cs.LongGrace = false, false
+			if cs.C2S < 4096 {
+				cs.C2S = 4096 + i*1000
+			}
+			if cs.S2C < 4096 {
+				cs.S2C = 6000 + i*1000
+			}
+			wg.Add(1)
+			go func() {
+				defer wg.Done()
+				m.Eval(1)
+				x := &c05Run{cs: cs, m: m, seed: seed, cp: cps[cs.WindowMs], r: rand.New(rand.NewPCG(cs.CaseSeed, 0))}
+				defer func() {
+					if p := recover(); p != nil {
+						m.Violation("harness-panic", fmt.Sprintf("panic while running case: %v", p), map[string]any{"case": cs})
+					}
+				}()
+				x.run()
+				m.Count("cases_after_last_torn_down_relay", 1)
+			}()
+		}
+		wg.Wait()
+	}
 	c05SigMu.Lock()
 	if len(c05SigSeen) > 0 {
 		m.Set("failure_signature_counts", c05SigSeen)
@@ -1584,7 +1760,8 @@ func TestVerifC05(t *testing.T) {
 	m.Count("gather_hook_with_pending_body", gatherWithBody.Load())
 	m.Require("path_gather", "path_splice", "path_loop", "gather_hook_calls",
 		"eof_propagated_l2r", "eof_propagated_r2l", "grace_flow_delivered", "alive_after_window", "late_unit_delivered", "eager_close", "long_grace_4s", "small_window_backpressure", "old_connection_half_close",
-		"outcome_plain", "outcome_bufio", "outcome_prefixed", "outcome_sniffer-ok", "outcome_raw-noready")
+		"outcome_plain", "outcome_bufio", "outcome_prefixed", "outcome_sniffer-ok", "outcome_raw-noready",
+		"torn_down_relays_with_bytes_in_flight", "torn_down_relay_path_splice", "cases_after_last_torn_down_relay")
 	_ = errors.Is
 	m.Done(t)
 }
